@@ -55,6 +55,11 @@ def units(tier):
         ob = outcome_of(lambda: ip.instantiate(c, ["3", False, PySet(), a, b], {}, ctx))
         want = ip.call_function(func("spec.duration_spec"), [a, b], {}, ctx)
         obs = [Obligation(f"{PROP}/SwitcherSchedule/constructs", ctx, ob[0] == "ret")]
+        # the reported duration (and the display text derived with it) is always computed from the object's own times: neither can be
+        # handed to the constructor (dataclasses.replace / a copy built from asdict would otherwise carry a stale value over)
+        init_fields = [f[0] for f in c.dataclass_fields() if f[3]]
+        obs.append(Obligation(f"{PROP}/SwitcherSchedule/duration_and_display_are_not_constructor_parameters", ctx,
+                              "duration" not in init_fields and "display" not in init_fields, note=str(init_fields)))
         if ob[0] == "ret":
             obs.append(Obligation(f"{PROP}/SwitcherSchedule/duration_is_of_its_own_times", ctx, ip.equals(ob[1].attrs.get("duration"), want, ctx)))
             obs.append(Obligation(f"{PROP}/SwitcherSchedule/construction_assigns_nothing_else", ctx,
